@@ -157,8 +157,13 @@ class Exec:
             return [gf2.TOP] * 32
         if k == "f":
             return Lf.s(("fn", v[1]))
-        if k in ("g", "ce"):
-            return Lf.s(("glob", repr(v)))
+        if k == "g":
+            return Lf.s(("glob", v[1]))
+        if k == "ce":
+            ops = v[2]
+            if v[1] in ("bitcast", "getelementptr") and ops and ops[0][0] in ("g", "ce") and all(o[0] == "c" and int(o[1]) == 0 for o in ops[1:]):
+                return self.val(p, ops[0])
+            return [gf2.TOP] * 64
         return Lf.s(("x", repr(v)))
 
     def word(self, v, w, p=None):
@@ -516,23 +521,34 @@ class Exec:
             return None if k is None else bool(k)
         return None
 
-    def _implied(self, p, pred, d):
-        """is (d pred 0) decided by the conditions already assumed (same linear form up to a constant)?"""
+    @staticmethod
+    def _norm(pr, dd, truth):
+        """condition ((dd) pr 0) is truth  ->  (key, q, val) meaning  key q val  with key's leading coefficient +1"""
+        if dd is None:
+            return None
+        q = pr if truth else {"eq": "ne", "ne": "eq", "ult": "uge", "uge": "ult", "ugt": "ule", "ule": "ugt"}.get(pr)
+        if q is None:
+            return None
+        kk = Lf(dd)
+        c0 = kk.pop(1, 0)
+        if not kk:
+            return None
+        coeffs = set(kk.values())
+        if coeffs == {1}:
+            return kk, q, -c0
+        if coeffs == {-1}:
+            kk = Lf({s_: 1 for s_ in kk})
+            q = {"ult": "ugt", "ugt": "ult", "ule": "uge", "uge": "ule", "eq": "eq", "ne": "ne"}[q]
+            return kk, q, c0
+        return None
+
+    def _range(self, p, key):
         lo, hi, excl = 0, None, set()
-        key = Lf(d)
-        k0 = key.pop(1, 0)
         for (pr, dd, truth) in p.conds:
-            kk = Lf(dd)
-            c0 = kk.pop(1, 0)
-            if kk != key:
+            nm = self._norm(pr, dd, truth)
+            if nm is None or nm[0] != key:
                 continue
-            # condition: (key + c0) pr 0  is truth   =>  key pr' -c0
-            q = pr if truth else {"eq": "ne", "ne": "eq", "ult": "uge", "uge": "ult", "ugt": "ule", "ule": "ugt"}.get(pr)
-            if q is None:
-                continue
-            # unsigned compares were against constants originally: a pred b with b constant; we stored d = a - b
-            # so a = key + (c0 + b) ... we only keep track in terms of x = key + c0_of_first; handle common case c0 offsets
-            val = -c0
+            _, q, val = nm
             if q == "eq":
                 lo, hi = max(lo, val), val if hi is None else min(hi, val)
             elif q == "ne":
@@ -545,21 +561,33 @@ class Exec:
                 lo = max(lo, val + 1)
             elif q == "uge":
                 lo = max(lo, val)
-        val = -k0
+        return lo, hi, excl
+
+    def _implied(self, p, pred, d):
+        """is (d pred 0) decided by the conditions already assumed (same linear form up to a constant)?"""
+        nm = self._norm(pred, d, True)
+        if nm is None:
+            return None
+        key, q, val = nm
+        lo, hi, excl = self._range(p, key)
         if hi is None:
-            if pred == "uge" and lo >= val:
+            if q == "uge" and lo >= val:
                 return True
-            if pred == "ult" and lo >= val:
+            if q == "ugt" and lo > val:
+                return True
+            if q == "ult" and lo >= val:
                 return False
-            if pred == "eq" and (val < lo or val in excl):
+            if q == "ule" and lo > val:
                 return False
-            if pred == "ne" and (val < lo or val in excl):
+            if q == "eq" and (val < lo or val in excl):
+                return False
+            if q == "ne" and (val < lo or val in excl):
                 return True
             return None
-        cand = [x for x in range(lo, hi + 1) if x not in excl] if hi - lo < 4096 else None
-        if cand is None:
+        if hi - lo >= 4096:
             return None
-        res = {ir.eval_icmp(pred, x, val, 64) for x in cand}
+        cand = [x for x in range(lo, hi + 1) if x not in excl]
+        res = {ir.eval_icmp(q, x, val, 64) for x in cand}
         if len(res) == 1:
             return res.pop()
         return None
@@ -615,31 +643,12 @@ class Exec:
         return None if best is None else best + k0
 
     def _derive_eq(self, p, d):
-        syms = [s for s in d if s != 1]
-        if len(syms) != 1 or d[syms[0]] != 1:
-            return
-        s = syms[0]
-        key = Lf({s: 1})
-        lo, hi, excl = 0, None, set()
-        for (pr, dd, truth) in p.conds:
-            kk = Lf(dd)
-            c0 = kk.pop(1, 0)
-            if kk != key:
-                continue
-            q = pr if truth else {"eq": "ne", "ne": "eq", "ult": "uge", "uge": "ult", "ugt": "ule", "ule": "ugt"}.get(pr)
-            val = -c0
-            if q == "eq":
-                lo, hi = max(lo, val), val if hi is None else min(hi, val)
-            elif q == "ne":
-                excl.add(val)
-            elif q == "ult":
-                hi = val - 1 if hi is None else min(hi, val - 1)
-            elif q == "ule":
-                hi = val if hi is None else min(hi, val)
-            elif q == "ugt":
-                lo = max(lo, val + 1)
-            elif q == "uge":
-                lo = max(lo, val)
+        nm = self._norm("eq", d, True)
+        if nm is None or len(nm[0]) != 1:
+            return None
+        key = nm[0]
+        (s,) = tuple(key)
+        lo, hi, excl = self._range(p, key)
         if hi is not None and hi - lo < 64:
             cand = [x for x in range(lo, hi + 1) if x not in excl]
             if len(cand) == 1:
